@@ -535,7 +535,7 @@ class Beam(_Simu):
             options.extend(["N", "Ty", "Tz", "Mx", "My", "Mz"])
             options.extend(["Sxx", "Syy", "Szz", "Syz", "Sxz", "Sxy"])
 
-        options.extend(["Srain", "Stress"])
+        options.extend(["Strain", "Stress"])
 
         return options
 
@@ -623,6 +623,14 @@ class Beam(_Simu):
             Sigma_e = self._Calc_Sigma_e_pg(Epsilon_e_pg).mean(1)
             index = self._indexResult(result)
             values = Sigma_e[:, index]
+
+        elif result in ["Strain", "Stress"]:
+            # element means of the generalised strains / of the stresses
+            Epsilon_e_pg = self._Calc_Epsilon_e_pg(self.displacement)
+            if result == "Strain":
+                values = np.asarray(Epsilon_e_pg.mean(1))
+            else:
+                values = np.asarray(self._Calc_Sigma_e_pg(Epsilon_e_pg).mean(1))
 
         elif result in ["ux'", "rx'", "ry'", "rz'"]:
             Epsilon_e = self._Calc_Epsilon_e_pg(self.displacement).mean(1)
